@@ -1639,6 +1639,7 @@ func (in *Interp) chanRecv(fr *frame, c Value, t types.Type, commaOk bool) Value
 	ch := c.(*Chan)
 	if in.sc != nil && in.sc.enabled {
 		in.curFrame = fr
+		in.schedPoint(fr)
 		v, ok := in.gRecv(fr, ch, t.Underlying().(*types.Chan).Elem())
 		if commaOk {
 			return Tuple{v, in.tt.Bool(ok)}
@@ -1668,6 +1669,7 @@ func (in *Interp) chanRecv(fr *frame, c Value, t types.Type, commaOk bool) Value
 func (in *Interp) selectStmt(fr *frame, instr *ssa.Select) {
 	if in.sc != nil && in.sc.enabled {
 		in.curFrame = fr
+		in.schedPoint(fr)
 		in.gSelect(fr, instr)
 		return
 	}
